@@ -8,5 +8,9 @@ b, e = "<!-- seed-table-begin -->", "<!-- seed-table-end -->"
 assert s.count(b) == 1 and s.count(e) == 1
 table = subprocess.check_output([sys.executable, os.path.join(root, "tools", "seed_table.py")], text=True)
 s = s[: s.index(b) + len(b)] + "\n" + table + s[s.index(e):]
+b2, e2 = "<!-- bounds-table-begin -->", "<!-- bounds-table-end -->"
+if s.count(b2) == 1 and s.count(e2) == 1:
+    t2 = subprocess.check_output([sys.executable, os.path.join(root, "tools", "bounds_table.py")], text=True)
+    s = s[: s.index(b2) + len(b2)] + "\n" + t2 + s[s.index(e2):]
 open(p, "w").write(s)
-print("DESIGN.md 8.5 updated")
+print("DESIGN.md 8.5 / 8.6 updated")
